@@ -31,6 +31,7 @@ Definition wf_stepb (s : sys) (o : op) : bool :=
                   end
       end
   | OJoin _ _ size => size <? 0
+  | ONew _ _ _ _ t0 => 0 <=? t0
   | _ => true
   end.
 
